@@ -27,6 +27,9 @@ def wl_bloom(ctx, rng, case):
     hname, hf = gen.pick_hash(rng, keys)
     A = [rng.choice(keys) for _ in range(rng.randint(0, 12))]
     B = [rng.choice(keys) for _ in range(rng.randint(0, 12))]
+    if rng.random() < 0.12:
+        B = list(A)
+        ctx.count("identical_content_operand_pairs")
     disk = (rng.random() < 0.35, rng.random() < 0.35)
     case.desc = {"kind": "bloom", "est": est, "rate": rate, "bits": m, "hashes": k, "hash": hname, "on_disk": disk, "A": A, "B": B}
     ctx.observe("operand_placement", str(disk))
@@ -112,6 +115,9 @@ def wl_counting(ctx, rng, case):
     hname, hf = gen.pick_hash(rng, keys)
     A, cA = legit_stream(rng, keys, rng.randint(0, 14))
     B, cB = legit_stream(rng, keys, rng.randint(0, 14))
+    if rng.random() < 0.15:
+        B, cB = list(A), Counter(cA)  # two operands with IDENTICAL contents (fed the same multiset)
+        ctx.count("identical_content_operand_pairs")
     case.desc = {"kind": "counting", "est": est, "rate": rate, "hash": hname, "A": A, "B": B}
     sA = P.CountingBloomFilter(est, rate, **bl.kw_hash(hf))
     sB = P.CountingBloomFilter(est, rate, **bl.kw_hash(hf))
@@ -132,6 +138,14 @@ def wl_counting(ctx, rng, case):
                       got=res.check(key), want=cA[key] + cB[key])
             ctx.check(res.check(key) == sAB.check(key), f"counting {tag} answers differently from the single-stream filter", key=key)
         ctx.count("unions_compared")
+    # a filter united with ITSELF equals the filter fed its stream twice
+    sAA = P.CountingBloomFilter(est, rate, **bl.kw_hash(hf))
+    apply_stream(sAA, A + A)
+    if not all(c > 0 for c in bl.cells_of(sAA)):
+        res = sA.union(sA)
+        ctx.check(res is not None and bl.cells_of(res) == bl.cells_of(sAA), "counters of a.union(a) differ from the filter fed a's stream twice",
+                  got=bl.cells_of(res)[:32] if res is not None else None, want=bl.cells_of(sAA)[:32])
+        ctx.count("self_unions_compared")
     case.nontrivial = bool(A) and bool(B)
 
 
@@ -148,6 +162,9 @@ def wl_join(ctx, rng, case):
         width = max(width, 2)  # the mean-min query divides by width-1 (as the C original does): width 1 is outside its domain
     A, cA = legit_stream(rng, keys, rng.randint(0, 14))
     B, cB = legit_stream(rng, keys, rng.randint(0, 14))
+    if rng.random() < 0.12:
+        B, cB = list(A), Counter(cA)
+        ctx.count("identical_content_operand_pairs")
     arbitrary = rng.random() < 0.35
     if arbitrary:
         # any state the API can reach: removals of keys never added / over-removals (negative counters, totals that net to zero)
@@ -178,6 +195,14 @@ def wl_join(ctx, rng, case):
         for key in keys:
             ctx.check(sA.check(key) >= cA[key] + cB[key], "estimate after join below the sum of the operands' true counts", key=key, got=sA.check(key), want=cA[key] + cB[key])
     ctx.count("joins_compared")
+    # a sketch joined with ITSELF equals the sketch fed its stream twice
+    s1 = cls(width=width, depth=depth, **bl.kw_hash(hf))
+    s2 = cls(width=width, depth=depth, **bl.kw_hash(hf))
+    apply_stream(s1, B)
+    apply_stream(s2, B + B)
+    s1.join(s1)
+    ctx.check(bytes(s1) == bytes(s2), "a sketch joined with itself differs from the sketch fed its stream twice")
+    ctx.count("self_joins_compared")
     case.nontrivial = bool(A) and bool(B)
 
 
@@ -194,5 +219,5 @@ PROP = Prop(
         Workload("join", wl_join, quick=700, thorough=150000),
     ],
     assumptions=["unsaturated states only, as the statement says (cases whose combined array is completely set are skipped and counted)"],
-    required=["unions_compared", "joins_compared", "join_argument_with_zero_total_but_nonzero_cells", "aliasing_checks"],
+    required=["unions_compared", "joins_compared", "join_argument_with_zero_total_but_nonzero_cells", "aliasing_checks", "identical_content_operand_pairs", "self_unions_compared", "self_joins_compared"],
 )
